@@ -52,6 +52,9 @@ def gen_history(rng, nops, keys, mix):
                 ops.append('walk %d %s' % (n, hexs(key)))
             else:
                 ops.append('walk %d' % n)
+        elif k == 'near' and rng.random() < 0.12:
+            # the probe is a prefix of the table's own key buffer (handed back by pointer with a shorter length)
+            ops.append('nearself %s %d' % (hexs(rng.choice(keys)), rng.choice([1, 1, 2, 3, 8])))
         elif k == 'near':
             probe = rng.choice(keys)
             r = rng.random()
@@ -105,6 +108,10 @@ def monitor(ctx, opline, impl, spec, focus):
             if int(cm) > 2 * math.log2(n + 1) + 1e-9:
                 return {'op': 'get', 'observed': 'too-many-comparisons'}
         return None
+    if kind == 'nearself':
+        if iobs == 'noself' or sobs == 'noself':
+            return None if iobs == sobs else {'op': 'nearself', 'observed': 'wrong-result'}
+        kind = 'near'
     if kind == 'near':
         ires, iend, ilst = canon_near(iobs)
         sp = sobs.split(' ')
@@ -368,6 +375,14 @@ def tree_check(ctx, props, focus, replay=None):
         ops += (['walk 1'] * r) if r % 2 else (['walk 1'] * (r // 2) + ['otherwalk %d' % (r // 2)] + ['walk 1'] * (r - r // 2 - 1) + ['otherwalk 1'])
         ops += ['put %s 02' % hexs(keys[6]), 'walk 9', 'put %s 03' % hexs(keys[7]), 'walk 9', 'put %s 04' % hexs(keys[2]), 'walk 9']
         hists.append((['cmp byte', 'dump 1'], ops))
+    # a low block of keys put in ascending order, then a higher block put in descending order (long left-leaning red-rich paths):
+    # probe every key and every gap; the climb from a node without left subtree is as long as the tree is deep
+    for (na, nd) in ([(8, 14), (6, 20), (12, 12)] if quick else [(a, d) for a in (4, 6, 8, 10, 12, 16) for d in (8, 12, 14, 16, 20, 30)]):
+        ks = [bytes([0x30 + i // 10, 0x30 + i % 10, 0x35]) for i in range(na + nd)]
+        ops = ['put %s 01' % hexs(k) for k in ks[:na]] + ['put %s 01' % hexs(k) for k in reversed(ks[na:])]
+        for k in ks:
+            ops += ['near %s 0' % hexs(k), 'near %s 1' % hexs(k[:2] + b'\x34'), 'near %s %d' % (hexs(k[:2] + b'\x36'), na + nd + 2)]
+        hists.append((['cmp byte', 'dump 0'], ops))
     # large histories, structure summarised
     for i in range(1 if quick else 6):
         nk = 600 if quick else rng.choice([1000, 3000, 5000])
